@@ -52,8 +52,8 @@ check('C16', 'contracts', 'exploration', 'independent module-tree walk compared 
       'Leaf = module without children; hook bookkeeping read from torch hook dictionaries.', 'DESIGN.md §3 C16')
 
 check('C01', 'refmodel', 'exploration', 'runtime value oracle: float64 re-solution of the damped Kronecker system from data captured at the API boundary',
-      'Generated models/configurations/dtypes: before/after gradients and state_dict factors of the real preconditioner are compared, layer by layer and step by step, '
-      'with the float64 solution V scaled by one fitted scalar; tolerance derived from measured conditioning (>= 8x head-room observed).',
+      'Generated models/configurations/dtypes (incl. damping schedules): before/after gradients and state_dict factors of the real preconditioner are compared, layer by layer and step by step, '
+      'with the float64 solution V scaled by one scalar fitted on the best-conditioned layer; every 8th case runs on 2-4 simulated ranks and checks every rank; tolerance derived from measured conditioning.',
       'Factors are read from state_dict(); the clip formula itself is C07; low-precision cases with a loose bound are counted trivial.', 'DESIGN.md §3 C01')
 check('C02', 'simdist', 'exploration', 'differential/metamorphic oracle over real multi-rank executions on the simulated backend (rank-vs-rank, placement-vs-placement, union single-process)',
       'For fixed model/data/hyper-parameters the real KFACPreconditioner runs on 2-8 simulated ranks under several placements and scheduler policies; gradients must be equal across ranks, '
@@ -101,7 +101,7 @@ check('C10', 'refmodel', 'exploration', 'bitwise snapshot monitor around every s
 check('C09', 'refmodel', 'fault_enumeration', 'fault enumeration over the checkpoint position: every step boundary of every generated run is a save/load point; resumed real run vs uninterrupted real run and vs the float64 reference',
       'For every boundary c in 0..T: steps, scalar hyper-parameters and factors must be restored bitwise (single process and 2-4 simulated ranks under COMM/HYBRID/MEM-OPT), a valid state never raises, '
       'a wrong layer count raises ValueError, the continued gradients equal the uninterrupted run when the live second-order data was fresh or is recomputed next, and always equal the reference that '
-      'refreshes at load; include_factors=False / compute_inverses=False variants.',
+      'refreshes at load; include_factors=False / compute_inverses=False variants; multi-rank roll-backs into a live preconditioner with communication still in flight.',
       'A resume is a fresh preconditioner on the same model object; runs of 3-8 steps.', 'DESIGN.md §3 C09')
 
 check('C12', 'contracts', 'exploration', 'runtime relational monitor over one real GPTNeoXAssignment per rank (cross-rank view comparison, greedy replay, recorded new_group order)',
